@@ -377,8 +377,21 @@ fn check_tape(tape: &[u8], gates: &Gates, stats: &mut Stats, counting: bool) -> 
     let uri = "file:///w/doc.st";
     let other = "file:///w/other.st";
     let mut msgs = vec![lsp_initialize(0), lsp_initialized()];
-    if choice.flag() {
-        msgs.push(lsp_did_open(other, 1, "PROGRAM other\nVAR\nz : INT;\nEND_VAR\nEND_PROGRAM\n"));
+    // other documents of the session: none, one opened first, or up to three whose names sort before
+    // and after the document's, opened before it, between its versions or after it (a store that
+    // is kept in some order must find every document whatever the order of arrival)
+    let other_text = "PROGRAM other\nVAR\nz : INT;\nEND_VAR\nEND_PROGRAM\n";
+    let others: Vec<&str> = match choice.below(4) {
+        0 => vec![],
+        1 => vec![other],
+        2 => vec!["file:///w/a_first.st", "file:///w/zz_last.st"],
+        _ => vec!["file:///w/zz_last.st", "file:///w/doc.s", "file:///w/a_first.st"],
+    };
+    let others_when = choice.below(3); // 0 before the document, 1 after its first version, 2 after its last version
+    if others_when == 0 {
+        for (k, o) in others.iter().enumerate() {
+            msgs.push(lsp_did_open(o, 1, &other_text.replace("other", &format!("other{}", k))));
+        }
     }
     let mut ver = 0i64;
     let mut reopened = false;
@@ -395,6 +408,11 @@ fn check_tape(tape: &[u8], gates: &Gates, stats: &mut Stats, counting: bool) -> 
         } else {
             ver += 1;
             msgs.push(lsp_did_change(uri, ver, &[&d.text]));
+        }
+        if (i == 0 && others_when == 1) || (i + 1 == n_docs && others_when == 2 && !(i == 0 && others_when == 1)) {
+            for (k, o) in others.iter().enumerate() {
+                msgs.push(lsp_did_open(o, 1, &other_text.replace("other", &format!("other{}", k))));
+            }
         }
         if i + 1 < n_docs && asked[i] {
             msgs.push(lsp_semantic_tokens(json!(100 + i as i64), uri));
